@@ -38,6 +38,7 @@ ACTIVE_EXCLUSIONS = {
     'C13-clone-attr-specified',
     'C13-clone-loses-defaults',
     'C13-document-replaceChild-self',
+    'C13-setNamedItemNS-breaks-sort-order',
 }
 _no = os.environ.get('VERIF_C13_NOEXCL', '')
 if _no == 'all': ACTIVE_EXCLUSIONS = set()
